@@ -50,6 +50,18 @@ def is_self_accessor(hb):
     return bool(o) and all(x[0] == "arg" and x[1] == 1 for x in o)
 
 
+def is_parts_helper(F, hb):
+    """the helper's result is assembled only from its arguments: parts of them, or carrier calls (merge_by_ref ..) over them"""
+    multi = {}
+    for c in hb.calls():
+        if c.name in CARRIER_NAMES and c.def_.startswith("metrique"):
+            multi[c.def_] = tuple(range(len(c.args)))
+    o = Prov(hb, adapters=ORDER_ADAPTERS, multi=multi, adapter_pred=lambda t: (t.get("callee") or {}).get("name") in (
+        "as_ref", "deref", "borrow", "as_mut", "deref_mut", "unwrap", "expect", "take")).local(0)
+    o = {x for x in o if x[0] not in ("via", "agg")}
+    return bool(o) and all(x[0] == "arg" for x in o)
+
+
 def trait_name(t):
     return (t or "").rsplit("::", 1)[-1]
 
@@ -179,6 +191,9 @@ def check_forwarder(ctx, F, imp, b, tn, m, tgt, kind, key):
             # helper that builds one of the discovered wrapper structs around its arguments
             h = b.locals[c.dest["l"]].get("head", {})
             if h.get("adt") in WRAPPER_ADTS and local_callee_bodies(F, c):
+                pr.multi[c.def_] = tuple(range(len(c.args)))
+            elif b.local_ty(c.dest["l"]).startswith("(") and local_callee_bodies(F, c) and all(is_parts_helper(F, hb) for hb in local_callee_bodies(F, c)):
+                # private helper handing back a tuple of (parts of / wrappers around) its arguments: `let (stream, merged) = self.stream_and_merged(entry)`
                 pr.multi[c.def_] = tuple(range(len(c.args)))
             elif len(c.args) == 1 and local_callee_bodies(F, c) and all(is_self_accessor(hb) for hb in local_callee_bodies(F, c)):
                 # private accessor of the wrapper: hands out (a part of) `self`, e.g. `fn take_writer(&mut self) -> W { self.0.take().unwrap() }`
